@@ -1,6 +1,7 @@
 CONSTANTS
   Locs = {"en", "fr", "de"}
   Default = "en"
+  HeaderSpellings = {"tight", "spaced", "q", "star"}
   HeaderToks = {"fr", "it", "deAT", "bad"}
   MaxCtx = 2
   MaxViews = 2
